@@ -584,10 +584,16 @@ class Env(gpp.UGenParameter, gpp.NodeParameter):
 
         '''
 
-        obj = copy.copy(self)
+        obj = self._copy()
         min = utl.list_min(obj.levels)
         max = utl.list_max(obj.levels)
         obj.levels = utl.list_narop(bi.linlin, obj.levels, min, max, lo, hi)
+        return obj
+
+    def _copy(self):
+        obj = copy.copy(self)
+        obj.__envgen_format = None  # Formats cached for this envelope.
+        obj.__interpolation_format = None
         return obj
 
     def exprange(self, lo=0.01, hi=1.0):
@@ -602,7 +608,7 @@ class Env(gpp.UGenParameter, gpp.NodeParameter):
 
         '''
 
-        obj = copy.copy(self)
+        obj = self._copy()
         min = utl.list_min(obj.levels)
         max = utl.list_max(obj.levels)
         obj.levels = utl.list_narop(bi.linexp, obj.levels, min, max, lo, hi)
@@ -622,7 +628,7 @@ class Env(gpp.UGenParameter, gpp.NodeParameter):
 
         '''
 
-        obj = copy.copy(self)
+        obj = self._copy()
         min = utl.list_min(obj.levels)
         max = utl.list_max(obj.levels)
         obj.levels = utl.list_narop(
